@@ -156,46 +156,92 @@ def full_buffer_scenarios():
 
 
 # ----------------------------------------------------------------------------- validation (one verdict per behaviour)
-def validate_chunk(run, cfg, items):
-    """One TLC run over a chunk of complete traces (items = [(trace id, ndjson line)]).  HubTrace reports at the end of every
-    behaviour how far the contract's actions got (<<"ENDED", boundary, high-water mark>>).  -> (accepted, rejections, deviations)"""
-    tf = tempfile.NamedTemporaryFile("w", suffix=".ndjson", dir=run.work, delete=False)
-    tf.write("".join(l for _, l in items))
-    tf.close()
-    af = tf.name + ".allowed"
+CHUNK_EVENTS = 50000
+
+
+def validate_chunk(run, cfg, chunk):
+    """One TLC run over a chunk file of complete traces.  chunk = {"file", "spans": [(trace id, first line, boundary)]} (1-based line
+    numbers; boundary = line after the trace's last).  HubTrace reports at the end of every behaviour how far the contract's actions
+    got (<<"ENDED", boundary, high-water mark>>).  -> (accepted ids, rejections, deviation keys used by accepted behaviours)"""
+    af = chunk["file"] + ".allowed"
     with open(af, "w") as f:
         for k in sorted(run.findings) or ["(none)"]:
             f.write(json.dumps({"key": k}) + "\n")
-    rc, out, dt = run.tlc("HubTrace", cfg, workers=1, timeout=1500, env={"VERIF_TRACE": tf.name, "VERIF_ALLOWED_FILE": af})
-    os.unlink(tf.name)
-    os.unlink(af)
-    if rc != 0 or "No error has been found" not in out:
-        run.log(out[-5000:])
+    out = ""
+    for attempt in range(3):        # TLC occasionally dies without a verdict under heavy load
+        rc, out, dt = run.tlc("HubTrace", cfg, workers=1, timeout=1500, env={"VERIF_TRACE": chunk["file"], "VERIF_ALLOWED_FILE": af}, heap="4g")
+        if rc == 0 and "No error has been found" in out:
+            break
+    else:
+        run.log(out[-3000:])
         raise Inconclusive("trace validation with HubTrace failed (rc=%d) without a verdict" % rc)
+    os.unlink(af)
     marks = {}
     for m in re.finditer(r'<<"ENDED", (\d+), (\d+)>>', out):
         b, hw = int(m.group(1)), int(m.group(2))
         marks[b] = max(marks.get(b, 0), hw)
     devs = [(m.group(1), int(m.group(2))) for m in re.finditer(r'<<"DEVIATION", "([^"]+)", (\d+)>>', out)]
-    spans, start = [], 0
-    for i in range(1, len(items) + 1):
-        if i == len(items) or items[i][0] != items[start][0]:
-            spans.append((items[start][0], start + 1, i + 1))
-            start = i
+    devs.sort(key=lambda x: x[1])
     accepted, rejections, deviations = set(), [], []
-    for tid, first, boundary in spans:
+    lines = None
+    di = 0
+    for tid, first, boundary in chunk["spans"]:
         if boundary not in marks:
             raise Inconclusive("HubTrace gave no verdict for behaviour %s" % tid)
         hw = marks[boundary]
+        while di < len(devs) and devs[di][1] < first:
+            di += 1
         if hw >= boundary:
             accepted.add(tid)
-            deviations += [k for k, at in devs if first <= at < boundary]
+            k = di
+            while k < len(devs) and devs[k][1] < boundary:
+                deviations.append(devs[k][0])
+                k += 1
             continue
         if hw < first:
             raise Inconclusive("HubTrace verdict for behaviour %s points outside it (%d not in %d..%d)" % (tid, hw, first, boundary - 1))
-        trace = [json.loads(l) for _, l in items[first - 1:hw]]
-        rejections.append({"trace": tid, "rejected_event_index": len(trace) - 1, "rejected_event": trace[-1], "accepted_prefix": trace[:-1], "invariant": None})
+        if lines is None:
+            lines = open(chunk["file"]).readlines()
+        trace = [json.loads(l) for l in lines[first - 1:hw]]
+        rest = [json.loads(l) for l in lines[hw:boundary - 1]]
+        rejections.append({"trace": tid, "rejected_event_index": len(trace) - 1, "rejected_event": trace[-1], "accepted_prefix": trace[:-1],
+                           "rest_of_trace": rest, "invariant": None})
+    os.unlink(chunk["file"])
     return accepted, rejections, deviations
+
+
+def cut_chunks(run, trace_file):
+    """Cuts the recorded ndjson file (the events of one behaviour are contiguous) into files of complete behaviours."""
+    chunks, cur, n, last, first = [], None, 0, None, 1
+    tid_re = re.compile(r'"t":"([^"]*)"')
+    nev = ntr = 0
+
+    def close_span():
+        if cur is not None and last is not None:
+            cur["spans"].append((last, first, n + 1))
+    with open(trace_file) as f:
+        for line in f:
+            tid = tid_re.search(line).group(1)
+            if tid != last:
+                close_span()
+                ntr += 1
+                if cur is None or n >= CHUNK_EVENTS:
+                    if cur is not None:
+                        cur["fh"].close()
+                    tf = tempfile.NamedTemporaryFile("w", suffix=".ndjson", dir=run.work, delete=False)
+                    cur = {"file": tf.name, "fh": tf, "spans": []}
+                    chunks.append(cur)
+                    n = 0
+                last, first = tid, n + 1
+            cur["fh"].write(line)
+            n += 1
+            nev += 1
+    close_span()
+    if cur is not None:
+        cur["fh"].close()
+    for c in chunks:
+        del c["fh"]
+    return chunks, nev, ntr
 
 
 def short(ev):
@@ -212,9 +258,9 @@ def diagnose(r):
     # a socket listener whose buffer was not emptied by its disconnect and has grown since
     zombies = []
     for k, e in enumerate(pre + [ev]):
-        if e.get("a") == "disconnect" and e.get("qbefore", 0) >= 2 and not e.get("held"):
-            after = [x["q"][e["slot"] - 1] for x in (pre + [ev])[k:] if "q" in x]
-            if after and max(after) > after[0]:
+        if e.get("a") == "disconnect" and e.get("qbefore", 0) >= 2 and e["q"][e["slot"] - 1] == e["qbefore"] - 2:
+            after = [x["q"][e["slot"] - 1] for x in (pre + [ev])[k:] if "q" in x] + [len(x["drained"][e["slot"] - 1]) for x in [ev] if "drained" in x]
+            if max(after) > after[0]:
                 zombies.append(e)
     ztext = ""
     if zombies:
@@ -237,7 +283,7 @@ def replay_and_validate(run, vh, behaviours, label, jvms=8):
         return []
     payload = [{k: v for k, v in b.items() if not k.startswith("_")} for b in behaviours]
     crashes = []
-    tf = run.harness_parallel(vh, "hub", payload, label, procs=8, crashes=crashes)
+    tf = run.harness_parallel(vh, "hub", payload, label, procs=12, crashes=crashes)
     byid = {b["id"]: b for b in behaviours}
     for c in crashes:
         b = byid.get(c["behaviour"]["id"], c["behaviour"])
@@ -245,31 +291,21 @@ def replay_and_validate(run, vh, behaviours, label, jvms=8):
                       {"behaviour": b, "crash": {k: c[k] for k in ("rc", "signature", "stderr_tail")}, "replay_kind": "hub"})
     names = sorted({n for b in behaviours for n in b["names"]})
     cfg = TRACE_CFG % dict(mbs=q(names), buf=BUF)
-    traces, order = {}, []
-    for line in open(tf):
-        tid = re.search(r'"t":"([^"]*)"', line).group(1)
-        if tid not in traces:
-            traces[tid] = []
-            order.append(tid)
-        traces[tid].append((tid, line))
-    nev = sum(len(v) for v in traces.values())
-    n = max(1, min(jvms, nev // 3000 + 1))
-    chunks = [[] for _ in range(n)]
-    for i, tid in enumerate(order):
-        chunks[i % n].extend(traces[tid])
+    chunks, nev, ntr = cut_chunks(run, tf)
+    os.unlink(tf)
     t0 = time.time()
     accepted, rejections, deviations = set(), [], []
-    with cf.ThreadPoolExecutor(max_workers=n) as ex:
-        for a, r, d in ex.map(lambda c: validate_chunk(run, cfg, c), [c for c in chunks if c]):
+    with cf.ThreadPoolExecutor(max_workers=jvms) as ex:
+        for a, r, d in ex.map(lambda c: validate_chunk(run, cfg, c), chunks):
             accepted |= a
             rejections += r
             deviations += d
     dt = time.time() - t0
-    run.log("validate HubTrace[%s]: %d events, %d traces, accepted=%d rejected=%d (using deviations: %d) %.1fs" %
-            (label, nev, len(order), len(accepted), len(rejections), len(deviations), dt))
+    run.log("validate HubTrace[%s]: %d events, %d traces in %d chunks, accepted=%d rejected=%d (deviation steps in accepted traces: %d) %.1fs" %
+            (label, nev, ntr, len(chunks), len(accepted), len(rejections), len(deviations), dt))
     run.cov["traces_validated_against_impl"] += len(accepted)
     run.cov["evaluations"] += len(behaviours)
-    run.cov["stages"].append({"stage": "validate", "module": "HubTrace", "label": label, "events": nev, "traces": len(order),
+    run.cov["stages"].append({"stage": "validate", "module": "HubTrace", "label": label, "events": nev, "traces": ntr,
                               "accepted": len(accepted), "rejected": len(rejections), "wall_s": round(dt, 1)})
     for k in set(deviations):
         run.known_hits[k] = run.findings.get(k, "")
@@ -277,7 +313,6 @@ def replay_and_validate(run, vh, behaviours, label, jvms=8):
     sigs = {}
     for r in rejections:
         b = byid.get(r["trace"], {})
-        r["rest_of_trace"] = [json.loads(l) for _, l in traces[r["trace"]][r["rejected_event_index"] + 1:]]
         sig, words = diagnose(r)
         v = sigs.setdefault(sig, {"b": b, "r": r, "n": 0, "words": words})
         v["n"] += 1
